@@ -2,7 +2,7 @@
 //! long-lived instance; every answer and the Clean flag (all markers false, md empty) after every
 //! request are recorded.
 use crate::common::*;
-use crate::k_c01::{make_input, sources, write_models, Input};
+use crate::k_c01::{make_input_class, sources, write_models, Input};
 use crate::rng::Rng;
 use ddnnife::Ddnnf;
 use std::fmt::Write as _;
@@ -249,7 +249,9 @@ pub fn run(kind: &str, ctx: &Ctx, out: &mut dyn Write) {
     };
     let mut k = 0;
     for src in srcs.iter() {
-        let inp = match make_input(format!("{}-{}", kind, k), src, &mut rng) {
+        // C05 also gets c2d files that keep a false node (a separate generator class)
+        let c2d_false = kind == "c05" && rng.chance(1, 6);
+        let inp = match make_input_class(format!("{}-{}", kind, k), src, &mut rng, c2d_false) {
             Some(i) => i,
             None => continue,
         };
